@@ -1409,7 +1409,7 @@ class Ctx:
     def mark(self):
         return len(self.s.assertions())
 
-    def prove_independent(self, label, names, outputs, rerun, since=0):
+    def prove_independent(self, label, names, outputs, rerun, since=0, alts=None, suspected=False):
         """non-interference: the outputs (and the path taken) do not depend on the named inputs.
         Discharged syntactically (the variables occur neither in an output term nor in a decision made after `since`);
         otherwise a concrete two-run witness is searched through the replayer."""
@@ -1420,7 +1420,7 @@ class Ctx:
         flat = []
         for o in outputs:
             flat += list(o) if isinstance(o, (SArr, list, tuple)) else [o]
-        dep = self.depends_on(names, flat, since)
+        dep = "execution" if suspected else self.depends_on(names, flat, since)
         if dep is None:
             self.obls.append((label, "unsat", None, None))
             return True
@@ -1556,7 +1556,7 @@ class ConcCtx:
     def mark(self):
         return 0
 
-    def prove_independent(self, label, names, outputs, rerun, since=0):
+    def prove_independent(self, label, names, outputs, rerun, since=0, alts=None, suspected=False):
         """concrete: re-run with alternative values of the named inputs; outputs must be identical"""
         def flat(os_):
             f = []
@@ -1565,7 +1565,7 @@ class ConcCtx:
             return f
         base = flat(outputs)
         ok = True
-        for alt in self.alts.get(tuple(names), []) or [None]:
+        for alt in (alts if alts is not None else self.alts.get(tuple(names), [])) or [None]:
             if alt is None:
                 continue
             try:
